@@ -183,8 +183,7 @@ class C18(Prop):
         "further letters do is not judged (a change confined to that region shows up as a correspondence "
         "break without a failing specification input)",
     ]
-    not_modelled = ["--help's per-task special case and value-less optional core options (-l, -h) as moved options",
-                    "update_config (core values -> config overrides; C15)", "kwargs as received by task bodies "
+    not_modelled = ["update_config (core values -> config overrides; C15)", "kwargs as received by task bodies "
                     "(Executor; C04)", "Program.normalize_argv / binary name handling"]
 
     def generate(self, rng, tier, n):
@@ -259,7 +258,8 @@ class C18(Prop):
         specs = pc.ctx_specs(case["sigs"])
         rem = "None" if case.get("rem") is None else "(Some %s)" % ct.strs(case["rem"])
         return "(mk %s %s %s %s %s %s %s %s %s %s)" % (
-            ct.lst([pc.ctxspec(c) for c in specs]),
+            ct.lst([pc.ctxspec(c, flat(case["groups"]) + list(case["opt"]) + list(case.get("rem") or []))
+                    for c in specs]),
             ct.lst([ct.strs(g) for g in case["groups"]]), ct.lst([ct.n(i) for i in starts_of(case, specs)]),
             ct.strs(case["opt"]), ct.n(case["j"]),
             ct.strs(case["flags"]), rem,
@@ -350,12 +350,18 @@ class C18(Prop):
         (["--command-timeout", "-T"], "7", "timeout", 7),
         (["--command-timeout", "-T"], "12", "timeout", 12),
         (["--no-dedupe"], None, "dedupe", False),
+        # the runtime configuration file: a key only that file defines, read by the task body
+        (["--config", "-f"], "@runtime-file", "marker", "from-runtime-file"),
+        # getpass is patched (parser_common.run_effects); the body reads sudo.password
+        (["--prompt-for-sudo-password"], None, "sudo_password", pc.SUDO_PASSWORD),
     ]
 
     def extra_checks(self, tier, seed):
         """EFFECTS (a test on the real Program.run, not modelled in Coq): task bodies record the
-        settings they see (run.echo/warn/hide/pty/dry, tasks.dedupe, timeouts.command) and the
-        kwargs they receive; a core option must have the same effect first or inside a task's
+        settings they see (run.echo/warn/hide/pty/dry, tasks.dedupe, timeouts.command, a key of the
+        runtime configuration file given with -f/--config, sudo.password after
+        --prompt-for-sudo-password) and the kwargs they receive; the listing options through what
+        --list prints; a core option must have the same effect first or inside a task's
         argument list; the remainder must arrive verbatim."""
         rng = random.Random(seed + 18)
         n = 120 if tier == "quick" else 1500
@@ -378,12 +384,20 @@ class C18(Prop):
             specs = pc.ctx_specs(sigs)
             if any(a["kind"] == "KList" and a["default"] not in ([], None) for c in specs for a in c["args"]):
                 continue
+            if any(pn == "self" for t in sigs["tasks"] for pn, _ in t["params"]):
+                continue      # a parameter named 'self' cannot be delivered at all: F-C09e (C09's finding)
             inv = pc.gen_invocation(rng, specs, dash_values=False)
             if any(o["form"] == "glued" and "=" in o["val"].get("s", "")
                    for c in inv for o in pc.flat_occs(c["occs"])):
                 continue            # F-C01b (glued value containing '=') is C01's finding
+            if any("cluster" not in o and o["form"] == "pos"
+                   and specs[c["task"]]["args"][o["arg"]]["default"] is not None
+                   for c in inv for o in c["occs"]):
+                continue            # F-C01c (positional with a default given by position) is C01's finding
             groups = pc.spell_groups(specs, inv)
             spell, val, field, want = rng.choice(self.EFFECT_OPTIONS)
+            if val == "@runtime-file":
+                val = pc.runtime_marker_file()
             fl = rng.choice(spell)
             if val is None:
                 opt, form = [fl], "bare"
@@ -426,8 +440,22 @@ class C18(Prop):
                 f = {"case": case, "what": what}
                 reg = self._region(case)
                 if reg and what.startswith("core option has a different effect"):
-                    f["finding"] = reg
+                    f["finding"] = reg       # provisional: confirmed against the model below
                 failures.append(f)
+        # An effects failure inside a catalogued region is attributed only if the PARSE-LEVEL
+        # judgement of the very same command lines agrees: the model reproduces invoke's parse
+        # results (corr), the specification rejects them (spec false) and the clause-specific
+        # finding_of names the same region.  Otherwise it is an unattributed failure.
+        provisional = [f for f in failures if f.get("finding")]
+        if provisional:
+            from ..core import eval_shards
+            obss = [self.run_impl(f["case"]) for f in provisional]
+            terms = [self.to_coq(f["case"], o) for f, o in zip(provisional, obss)]
+            verdicts = eval_shards(self, terms, tag="fx")
+            for f, o, v in zip(provisional, obss, verdicts):
+                if not (v.get("corr") and not v.get("spec") and self.finding_of(f["case"], o) == f["finding"]):
+                    f["what"] += " [region %s NOT confirmed by the parse-level model: verdict %r]" % (f["finding"], v)
+                    del f["finding"]
         # F-C18d: options that Program acts upon before task parsing
         sig1 = {"tasks": [{"name": "t", "aliases": [], "coll": None, "default": False, "params": [],
                            "positional": None, "optional": [], "iterable": [], "incrementable": [],
@@ -439,6 +467,23 @@ class C18(Prop):
                              "what": "--version first prints the version and runs nothing; after a task name "
                                      "it is parsed (version=True) but the task runs and nothing is printed",
                              "finding": "F-C18d"})
+        # the listing options (--list-format/-F, --list-depth/-D) only show in what --list prints:
+        # same listing whether they are written first or after the task name
+        sig2 = {"tasks": [dict(sig1["tasks"][0]),
+                          dict(sig1["tasks"][0], name="u", coll="sub")]}
+        for optl in (["-F", "json"], ["--list-format=json"], ["-D", "1"], ["--list-depth=1"], ["-D1"]):
+            rb = pc.run_effects(sig2, ["t", "--list"])
+            rf = pc.run_effects(sig2, optl + ["t", "--list"])
+            rp = pc.run_effects(sig2, ["t"] + optl + ["--list"])
+            evaluations += 1
+            if rf["stdout"] == rb["stdout"] or not rf["stdout"].strip():
+                failures.append({"case": {"sigs": sig2, "argv_front": optl + ["t", "--list"]},
+                                 "what": "listing option in front has no visible effect: %r" % (rf,)})
+            elif (rp["stdout"], rp["exc"], len(rp["calls"])) != (rf["stdout"], rf["exc"], len(rf["calls"])):
+                failures.append({"case": {"sigs": sig2, "argv_front": optl + ["t", "--list"],
+                                          "argv_placed": ["t"] + optl + ["--list"]},
+                                 "what": "listing option has a different effect after the task name: "
+                                         "front %r placed %r" % (rf, rp)})
         # known regions first so that an unknown failure is the one reported
         failures.sort(key=lambda f: 0 if f.get("finding") else 1)
         failures = [f for f in failures if f.get("finding")] + [f for f in failures if not f.get("finding")][:1]
